@@ -221,7 +221,8 @@ def gen_plan(r, index, tier):
     n = len(tasks)
     if mode == 'history':
         order = []
-        for _ in range(r.randrange(1, 4)):
+        # now and then a long history: whatever counts calls must not change what the 33rd or the 70th returns
+        for _ in range(r.randrange(1, 4) if r.random() < 0.97 else r.choice([12, 20, 34])):
             perm = list(range(n))
             r.shuffle(perm)
             order += perm
